@@ -128,9 +128,33 @@ fn comp_char(r: &mut Rng, hostility: usize) -> char {
 }
 
 /// A non-empty component string; `no_slash` for namespace / subpath segments.
+/// A component whose UTF-8 length sits at a power of two (255..=257, 1023..=1025, 4095..=4097,
+/// rarely 65535..=65537 bytes), plain text with a character that needs an escape, or a
+/// multi-byte character, straddling the boundary: 8- and 16-bit length arithmetic, fixed
+/// buffers and chunked encoders show there and nowhere else.
+pub fn pow2_len_string(r: &mut Rng, no_slash: bool) -> String {
+    let base = if r.chance(1, 20) { 65_536usize } else { *r.pick(&[256usize, 1024, 4096]) };
+    let target = base + r.below(3) - 1;
+    let special = *r.pick(&[' ', '%', 'é', '中', '😀', '+', '&', '=', '@', '?', '#', ':', 'A']);
+    let at = base.saturating_sub(1 + r.below(4));
+    let mut s = String::with_capacity(target + 4);
+    while s.len() < target {
+        if s.len() >= at && !s.contains(special) && s.len() + special.len_utf8() <= target + 1 {
+            s.push(special);
+        } else {
+            s.push(*r.pick(b"abcxyz019") as char);
+        }
+    }
+    let _ = no_slash;
+    s
+}
+
 pub fn comp_string(r: &mut Rng, no_slash: bool) -> String {
     if r.chance(1, 12) {
         return crate::gen::boundary_string(r, no_slash);
+    }
+    if r.chance(1, 250) {
+        return pow2_len_string(r, no_slash);
     }
     let (lo, hi) = len_short(r);
     let n = r.range(lo, hi);
@@ -360,7 +384,8 @@ pub fn gen_tuple(r: &mut Rng, known: bool) -> Tuple {
         }
     }
     let ver = if r.chance(3, 5) { Some(if r.chance(1, 5) { r.pick(crate::gen::VERSION_VOCABULARY).to_string() } else { comp_string(r, false) }) } else { None };
-    let nq = *r.pick(&[0usize, 0, 1, 2, 3, 8, 12, 24]);
+    // (rarely: a number of qualifiers around 2^8)
+    let nq = if r.chance(1, 400) { r.range(254, 259) } else { *r.pick(&[0usize, 0, 1, 2, 3, 8, 12, 24]) };
     let mut quals: Vec<(String, String)> = Vec::new();
     for _ in 0..nq {
         let have: Vec<String> = quals.iter().map(|(k, _)| k.clone()).collect();
